@@ -77,7 +77,10 @@ def rich_world(seed, n_chroms=6, genes_per_chrom=3, groups=3, multimappers=True,
         for gi in range(genes_per_chrom):
             gid = "G%d_%d" % (ci + 1, gi + 1)
             hk = ("nnic_skip",) if gi == 0 else rng.choice([("nnic_site",), ("nic",), ()])
-            g, end = w.make_gene(gid, cname, pos, rng.choice("+-"), n_exons=rng.randint(4, 7), n_iso=rng.randint(2, 4),
+            n_ex = rng.randint(4, 7)
+            if gid == "G1_1":
+                n_ex = max(5, n_ex)         # the gene family used for multi-mapped reads needs room for two different inconsistencies
+            g, end = w.make_gene(gid, cname, pos, rng.choice("+-"), n_exons=n_ex, n_iso=rng.randint(2, 4),
                                  hidden_kinds=hk)
             if gi == 0:
                 og = overlapping_gene(w, g, "O%d_%d" % (ci + 1, gi + 1))
@@ -158,6 +161,17 @@ def rich_world(seed, n_chroms=6, genes_per_chrom=3, groups=3, multimappers=True,
                         w.make_read(mono[0].chrom, [(me[0] + 20 + k, me[0] + 240)], name=name, flag=256, mapq=60,
                                     truth={"multimap": True, "class": "secondary-consistent-mono"})
         fam = [g for g in w.genes if g.id == "G1_1" or g.id.startswith("P")]
+        if len(fam) >= 2 and len(fam[0].transcripts[0].exons) >= 5:
+            # reads ALL of whose alignments are inconsistent, with different degrees of inconsistency: one alignment skips an exon, the other
+            # one skips the exon and retains an intron as well (neither is primary)
+            for k in range(5):
+                name = "mminc%04d" % k
+                ga, gb = (fam[0], fam[1]) if k % 2 == 0 else (fam[1], fam[0])
+                ea, eb = list(ga.transcripts[0].exons), list(gb.transcripts[0].exons)
+                one = ea[:1] + ea[2:]
+                two = [eb[0]] + [(eb[2][0], eb[3][1])] + eb[4:]
+                w.make_read(ga.chrom, one, name=name, flag=256, mapq=60, truth={"multimap": True, "class": "inconsistent-one-difference"})
+                w.make_read(gb.chrom, two, name=name, flag=256, mapq=60, truth={"multimap": True, "class": "inconsistent-two-differences"})
         if len(fam) >= 2:
             # ties: no alignment is primary, all are equally good -> the read stays on several loci
             for k in range(8):
